@@ -371,7 +371,11 @@ def fault_expr(rng, kind):
         return rng.choice(["(5 1)", "((+ 1 2) 3)", "(\"s\")", "('a 1 2)", "((car (list 1 2)))"])
     if kind == "arity":
         return rng.choice(["((lambda (a b) a) 1)", "((lambda (a) a) 1 2)", "((lambda (a . r) a))", "(car 1 2)",
-                           "(cons 1)", "(fa2 1)", "(fa2 1 2 3)", "(vector-ref (vector 1))", "(not)"])
+                           "(cons 1)", "(fa2 1)", "(fa2 1 2 3)", "(vector-ref (vector 1))", "(not)",
+                           # the count is checked for every callee that apply reaches, natives included
+                           "(apply car '((1 2) 3))", "(apply vector-ref (list (vector 1 2) 0 'extra))",
+                           "(apply vector-length (vector 1 2) '(0))", "(apply fa2 '(1))", "(apply fa2 1 '(2 3))",
+                           "(apply (lambda (p) (car p)) '((1 2) 3))", "(apply not '(#t #f))"])
     if kind == "unbound-ref":
         return rng.choice(["undefined-variable", "(+ 1 undefined-variable)", "(undefined-procedure 1 2)"])
     if kind == "unbound-set":
@@ -466,6 +470,12 @@ def history_program(rng, steps=40):
         ("(define %s (lambda args (lambda (d) (set! args (cons d args)) args)))", "acc"),
         ("(define (%s init . rest) (lambda (d) (set! rest (cons (+ d init) rest)) rest))", "acc"),
     ]
+    outer = rng.random() < 0.5
+    if outer:
+        # the names the generator procedures define internally are bound at top level as well: a call must still
+        # create fresh bindings and leave these alone
+        forms += ["(define n 1000)", "(define cell 'outer-cell)", "(define args 'outer-args)", "(define rest 'outer-rest)",
+                  "(define (bump d) 'outer-bump)"]
     for g in range(rng.randint(1, 3)):
         shape, kind = rng.choice(shapes)
         name = "mk%d" % g
@@ -596,9 +606,53 @@ def history_program(rng, steps=40):
             stats["probe"] += 1
     forms.append("(list %s)" % " ".join(globs))
     forms.append("(list %s)" % " ".join(vecs + lits + lists))
+    if outer:
+        forms.append("(list n cell args rest (bump 1))")
     for c, kind in counters:
         forms.append("((cdr %s))" % c if kind == "pair" else "(%s 0)" % c)
     return forms, stats
+
+
+# ------------------------------------------------------------------------------------------
+# C01/C03: every call binds fresh locations - closures created in different rounds of a loop
+# ------------------------------------------------------------------------------------------
+def loop_closure_program(rng):
+    """a self- or mutually tail-recursive loop that creates a closure in every round (capturing a parameter or an
+    internal definition) and lets it escape (collected in a list, or handed on as an argument); the closures are
+    called after the loop. Each must still see the values of ITS round."""
+    n = rng.randint(2, 6)
+    cap = rng.choice(["param", "internal", "both"])
+    body_val = {"param": "n", "internal": "m", "both": "(+ n m)"}[cap]
+    defs = "" if cap == "param" else "(define m (* n %d)) " % rng.randint(2, 5)
+    esc = rng.choice(["list", "arg", "vector"])
+    ctx = rng.choice(["(if (= n 0) %s %s)", "(cond ((= n 0) %s) (else %s))", "(if (< 0 n) ((lambda () %s)) %s)"])
+    forms = []
+    if esc == "list":
+        rec = "(collect (- n 1) (cons (lambda () %s) acc))" % body_val
+        fin = "acc"
+        br = ctx % ((fin, rec) if "(< 0 n)" not in ctx else (rec, fin))
+        forms.append("(define (collect n acc) %s%s)" % (defs, br))
+        forms.append("(map (lambda (f) (f)) (collect %d '()))" % n)
+    elif esc == "arg":
+        rec = "(count (- n 1) (lambda () (cons %s (get))))" % body_val
+        fin = "(get)"
+        br = ctx % ((fin, rec) if "(< 0 n)" not in ctx else (rec, fin))
+        forms.append("(define (count n get) %s%s)" % (defs, br))
+        forms.append("(count %d (lambda () '()))" % n)
+    else:
+        rec = "(begin (vector-set! store n (lambda () %s)) (fill (- n 1)))" % body_val
+        fin = "'done"
+        br = ctx % ((fin, rec) if "(< 0 n)" not in ctx else (rec, fin))
+        forms.append("(define store (make-vector %d 0))" % (n + 1))
+        forms.append("(define (fill n) %s%s)" % (defs, br))
+        forms.append("(fill %d)" % n)
+        forms.append("(list %s)" % " ".join("((vector-ref store %d))" % k for k in range(1, n + 1)))
+    if rng.random() < 0.4:
+        # two procedures calling each other in tail position
+        forms.append("(define (ping n acc) (if (= n 0) acc (pong (- n 1) (cons (lambda () (* n 10)) acc))))")
+        forms.append("(define (pong n acc) (if (= n 0) acc (ping (- n 1) (cons (lambda () (+ n 100)) acc))))")
+        forms.append("(map (lambda (f) (f)) (ping %d '()))" % n)
+    return forms
 
 
 # ------------------------------------------------------------------------------------------
@@ -1157,6 +1211,14 @@ def encapsulation_case(rng):
         deps = [d for d in names[:i] if rng.random() < 0.7]
         ext_peek = rng.choice(["peek-%s" % name, "look-%s" % name])
         exports = ["next-%s" % name, "(rename peek %s)" % ext_peek, "reset-%s!" % name]
+        aliases = []
+        if rng.random() < 0.5:
+            # the same internal binding exported under a second (and third) external name
+            exports.append("(rename next-%s also-%s)" % (name, name))
+            aliases.append("(also-%s)" % name)
+            if rng.random() < 0.5:
+                exports.insert(0, "(rename peek see-%s)" % name)
+                aliases.append("(see-%s)" % name)
         body = ["(define %s %d)" % (internal, rng.randint(0, 5)),
                 "(define (%s d) (set! %s (+ %s d)) %s)" % (helper, internal, internal, internal),
                 "(define (next-%s) (%s 1))" % (name, helper),
@@ -1178,7 +1240,7 @@ def encapsulation_case(rng):
         else:
             imports = "(import (scheme base)%s)" % "".join(" (%s)" % d for d in deps)
         text = "(define-library (%s) (export %s) %s (begin %s))" % (name, " ".join(exports), imports, " ".join(body))
-        libs.append((name, text, deps, ext_peek))
+        libs.append((name, text, deps, ext_peek, aliases))
     forms = []
     order = list(names)
     rng.shuffle(order)
@@ -1189,9 +1251,9 @@ def encapsulation_case(rng):
             imported.append(name)
     # the import phase ends with the first other form
     pool = []
-    for name, text, deps, ext_peek in libs:
+    for name, text, deps, ext_peek, aliases in libs:
         if name in imported:
-            pool += ["(next-%s)" % name, "(%s)" % ext_peek, "(reset-%s!)" % name]
+            pool += ["(next-%s)" % name, "(%s)" % ext_peek, "(reset-%s!)" % name] + aliases + aliases
             pool += ["(via-%s-%s)" % (name, d) for d in deps]
     pool += ["(%s 1 2)" % c for c in collide] + ["(car '(1 2))", "(+ 1 2)"]
     pool += [internal, helper, "peek", "(define %s 100)" % internal, "(define (%s d) 'mine)" % helper,
@@ -1201,10 +1263,11 @@ def encapsulation_case(rng):
         pool.append("(define car (lambda (z) 'no-car))")
     for _ in range(rng.randint(6, 14)):
         forms.append(rng.choice(pool))
-    for name, text, deps, ext_peek in libs:
+    for name, text, deps, ext_peek, aliases in libs:
         if name in imported:
             forms.append("(%s)" % ext_peek)
-    return [(n, t) for n, t, _, _ in libs], forms
+            forms += aliases
+    return [(n, t) for n, t, _, _, _ in libs], forms
 
 
 # ------------------------------------------------------------------------------------------
@@ -1219,6 +1282,8 @@ def split_tokens(form):
 
 
 REPL_SPECIAL = [
+    "(define zz1 7) (if)", "zz1", '(display "before") (lambda)', "(define zz2 (list 1 2)) )", "zz2",
+    "(define zz3 3) (display zz3) (define)", "(+ zz3 1)", "(display 1) #z (display 2)",
     '(display "a(b")', '(display "))")', '(list #\\( #\\) 1)', "(quote |a(b|)", '(display "q\\"(")', "(display 1) ; )(\n",
     '(display "semi;colon(")', "(car '())", "(undefined-thing)", "(define (sq x) (* x x))", "(sq 7)", '(display "x y")',
     "(vector 1 #\\) 2)", "'(a . b)", "(if #f #f)", '(display "\\\\")', "(list \"(\" \")\")", "#\\(", '"plain string"', "'sym",
@@ -1277,7 +1342,10 @@ SYNTAX_FAULTS = ["(define)", ")", "(display 1", "#z", "\"unterminated", "(lambda
                  "(define-syntax m)", "(quote)"]     # not "'" (it quotes the next form), not "#\\": before a line break it is the newline character
 
 
-FILE_STRINGS = ['(display "name    \nvalue\t\n")', '(display "two  \n  lines")', '(display (list "a \n" "b\t\n\t"))',
+FILE_STRINGS = ['(display "squares:\n%s")' % " ".join(str(k * k) for k in range(1, 330)),
+                '(display "a\nb\n%s")' % ("x" * 2100),
+                '(display "%s\nend")' % ("long line " * 300),
+                '(display "name    \nvalue\t\n")', '(display "two  \n  lines")', '(display (list "a \n" "b\t\n\t"))',
                 '(display "ends in escape \\\\\nnext")', '(display "x\n\n y ")', '(display "tab\there ")']
 
 
@@ -1354,7 +1422,7 @@ def readable_value(rng, depth, defs):
         if a < 0.72:
             return rng.choice(["#t", "#f"])
         if a < 0.82:
-            return "#\\" + rng.choice(list("azAZ09!?*+-/<=>_~") + ["x"])
+            return "#\\" + rng.choice(list("azAZ09!?*+-/<=>_~()\";'|#") + ["x", " ", " "])
         return "'" + rng.choice(["a", "foo", "list->vector", "x1", "!", "<=?", "a.b", "+", "-", "...", "->x", "set!"])
     if k < 0.7:
         items = [readable_value(rng, depth - 1, defs) for _ in range(rng.randint(0, 6))]
@@ -1366,6 +1434,8 @@ def readable_value(rng, depth, defs):
             return expr
         return "(list %s)" % " ".join(items)
     items = [readable_value(rng, depth - 1, defs) for _ in range(rng.randint(0, 5))]
+    if rng.random() < 0.25:
+        items.append("#\\ ")           # a vector whose last element is the space character
     return "(vector %s)" % " ".join(items)
 
 
